@@ -38,6 +38,25 @@ def net_body_paths(cat):
     if ent is None:
         raise AnalysisError("anchor vanished: dataReceived")
     seen = 0
+    # the dispatcher's frame: the deepest frame shared by the type look-up and the state dispatch that follows it (the look-up may
+    # sit in a helper the dispatcher calls first) - found once, on the paths that do dispatch, and used for all of them
+    disp_depth = None
+    for p in ent.paths:
+        for e in p.events:
+            if e.kind != "LOOP":
+                continue
+            for bp in e.a["body"]:
+                cm = [x for x in bp.events if x.kind == "CONSTMAP"]
+                if not cm:
+                    continue
+                for x in bp.walk():
+                    if x.kind == "DISPATCH":
+                        k = 0
+                        while k < min(len(cm[0].stack), len(x.stack)) and cm[0].stack[k] == x.stack[k]:
+                            k += 1
+                        if k > len(e.stack):
+                            disp_depth = k if disp_depth is None else min(disp_depth, k)
+                        break
     for p in ent.paths:
         for e in p.events:
             if e.kind != "LOOP":
@@ -49,7 +68,7 @@ def net_body_paths(cat):
                 seen += 1
                 c = cm[0]
                 # events of this packet: those inside the dispatcher's frame (the framer's own bookkeeping excluded)
-                pre = c.stack
+                pre = c.stack[:disp_depth] if disp_depth is not None and len(c.stack) > disp_depth else c.stack
                 pkt = [x for x in bp.walk() if x.stack[:len(pre)] == pre and len(x.stack) >= len(pre)]
                 bp.pkt_events = pkt
                 if c.a["hit"]:
